@@ -330,7 +330,8 @@ class _ReadSourceGenerator:
             size += field_type.size
 
         fmt = _optimize_struct_fmt(info)
-        if fmt == "x" or (len(fmt) == 2 and fmt[1] == "x"):
+        if slice_index == 0 and (fmt == "x" or (len(fmt) == 2 and fmt[1] == "x")):
+            # Only padding/byte-sliced members: nothing is taken from the unpacked tuple
             unpack = ""
         else:
             unpack = f'data = _struct(cls.cs.endian, "{fmt}").unpack(buf)\n'
